@@ -252,6 +252,14 @@ def gen_scn(rng, prof, hist=lambda k, n=1: None):
             continue
         if c is None and sh.serial > 0 and rng.random() < prof.get('p_departed', 0.2):
             # traffic for an id that is not live (never announced, decided or withdrawn): must be ignored
+            if with_xq and oldtags and rng.random() < 0.4:
+                # a late answer to a query of an instance that has left and whose id is (perhaps) not in use again
+                mine = [x for x in oldtags if x[0].split('_')[0] == '%x' % (cid & 0xffffffff)] or oldtags
+                tag, oldout = rng.choice(mine)
+                svc = rng.choice(oldout or [s_[0] for s_ in sh.svcs] or ['nosuch.x'])
+                if rng.random() < 0.15: emit("-1 x %s %s :gone" % (svc, tag))
+                else: emit("-1 X %s %s :%s" % (svc, tag, rng.choice(['OK', 'OK %s' % rng.choice(ACCTS), 'NO %s' % rtext(), 'NO', 'AGAIN %s' % rtext(), 'MORE %s' % rtext(), 'MORE'])))
+                hist("late reply for a departed instance"); continue
             emit("%d %s" % (cid, rng.choice(['N late.example.org', 'u ident', 'u', 'n Late', 'U user :Real', 'H', 'H', 'H', 'P :+x acct pw', 'P :+x acct pw', 'd', 'T', 'D', '! timeout']))); continue
         if c is None or r < prof.get('p_reannounce', 0.04):
             if c is not None: oldtags.append((c.tag(), sorted(c.out)))
@@ -630,6 +638,61 @@ def standard_run(chk, profile, nq, nt, extra=()):
     ms = run_model(drv, scns)
     ds = run_daemons(impl, scns)
     chk.cov["samples"] = [scns[0].describe().split("\n"), scns[len(corpus()) + 1].describe().split("\n")[:25]]
+    kernel_corpus(chk, scns[:len(corpus())], ms[:len(corpus())])
     chk.hist("scenarios:corpus", len(corpus())); chk.hist("scenarios:generated", n)
     chk.hist("steps", sum(len(s.items) for s in scns))
     return drv, impl, scns, ms, ds
+
+
+# ------------------------------------------------------------------------------------------------
+# corpus cases re-checked INSIDE Coq: for these the kernel (vm_compute + reflexivity) confirms that the model as defined
+# in coq/Iauth.v prints exactly what the extracted OCaml program printed, i.e. what is then compared with the daemon
+# (this takes extraction and the OCaml driver out of the trusted base for the corpus histories; it compares with the
+# MODEL's run, so a behaviour change of the daemon is judged only by the per-property comparison in analyse())
+def coq_bytes(b):
+    return "(B [" + "; ".join(str(x) for x in b) + "])"
+
+def coq_rule(r):
+    def o(v): return "None" if v is None else "(Some %s)" % coq_bytes(v.encode("latin1"))
+    addr = "None" if r.get("address") is None else "(rule_addr %s)" % coq_bytes(r["address"].encode("latin1"))
+    return "{| r_name := %s; r_class := %s; r_acct := %s; r_addr := %s; r_user := %s; r_host := %s; r_xok := %s; r_trust := %s |}" % (
+        coq_bytes(r["name"].encode("latin1")), o(r.get("class")), o(r.get("account")), addr, o(r.get("username")), o(r.get("hostname")), o(r.get("xreply_ok")), "true" if r.get("trust") else "false")
+
+def kernel_corpus(chk, scns, ms):
+    """writes one Example per scenario and compiles the file with coqc; returns the number of cases the kernel confirmed"""
+    lines = ["From Coq Require Import List NArith ZArith Bool Strings.Byte.", "Import ListNotations.", "Require Import IA.Params IA.AddrFull IA.Iauth IA.Line.",
+             "Local Open Scope N_scope.",
+             "Definition B (l : list N) : list byte := map (fun n => match Byte.of_N n with Some b => b | None => x00 end) l.",
+             "Definition rule_addr (s : list byte) : option (list N * N) := match pton s true false with Res _ (Some b) gs => Some (gs, b) | Res _ None gs => Some (gs, 0) | Unspec => None end.",
+             "Definition obs (c : cfg) (s0 : st) (es : list rev) : list (list (list N) * nat) := map (fun x => (map (fun o => map Byte.to_N (render o)) (fst x), snd x)) (run_revs c s0 es)."]
+    n = 0
+    for k, (scn, msteps) in enumerate(zip(scns, ms)):
+        if len(msteps) != len(scn.items):
+            continue
+        def tabs(svcs, rules):
+            return "[" + "; ".join("(%s, %s)" % (coq_bytes(a.encode("latin1")), coq_bytes(b.encode("latin1"))) for a, b in svcs) + "]", "[" + "; ".join(coq_rule(r) for r in rules) + "]"
+        sv, ru = tabs(scn.svcs, scn.rules)
+        evs = []
+        for it in scn.items:
+            if it[0] == 'L': evs.append("RLine %s" % coq_bytes(it[1]))
+            else:
+                s2, r2 = tabs(it[1], it[2]); evs.append("RReload %s %s %s" % (s2, r2, "true" if it[3] else "false"))
+        exp = "[" + "; ".join("([" + "; ".join("[" + "; ".join(str(x) for x in l.encode("latin1")) + "]" for l in ls) + "], %d%%nat)" % nu for ls, nu in msteps) + "]"
+        c = "{| with_xq := %s |}" % ("true" if scn.with_xq else "false")
+        lines.append("Example corpus_%d : obs %s (init %s %s %s %s) [%s] = %s." % (k, c, c, sv, ru, "true" if scn.timeout else "false", "; ".join(evs), exp))
+        lines.append("Proof. vm_compute. reflexivity. Qed.")
+        n += 1
+    d = BUILD / "tmp" / ("kc%d" % os.getpid())
+    d.mkdir(parents=True, exist_ok=True)
+    (d / "Corpus.v").write_text("\n".join(lines) + "\n")
+    try:
+        r = run(["timeout", "300", "coqc", "-R", str(COQ), "IA", "Corpus.v"], cwd=d, timeout=320)
+        ok = r.returncode == 0
+        msg = (r.stdout.decode(errors="replace") + r.stderr.decode(errors="replace"))[-800:]
+    except subprocess.TimeoutExpired:
+        ok, msg = False, "timeout"
+    shutil.rmtree(d, ignore_errors=True)
+    chk.cov["corpus_cases_checked_in_kernel"] = n if ok else 0
+    if not ok:
+        chk.violation("the corpus histories re-checked inside Coq (vm_compute in the kernel) do not give what the extracted model printed: " + msg, msg, "kernel-corpus", found_input=False)
+    return n if ok else 0
